@@ -186,9 +186,27 @@ def run(ctx):
         for a in m['arms']:
             p = src(a['pat'])
             if p in ('Rule::method', 'Rule::index'):
-                onces = [c for c, _ in find_nodes(a['body'], lambda y: y.get('k') == 'call' and src(y['func']) == 'iter::once')]
-                chains = [c for c, _ in find_nodes(a['body'], lambda y: y.get('k') == 'mcall' and y['method'] == 'chain')]
-                recv_first = any(src(ch['recv']).startswith('iter::once(Ok(ret))') for ch in chains)
+                # the accumulator of the accessor fold: the variable this arm assigns the new call expression to
+                accs = [src(x['left']) for x, _ in find_nodes(a['body'], lambda y: y.get('k') == 'assign' and y['left'].get('k') == 'path')]
+                acc = accs[-1] if accs else 'ret'
+                # what is put into the argument list first?  (a) once(Ok(acc)).chain(..)  (b) vec![acc] then push in a loop
+                # (c) Vec::new() + push(acc) before the loop
+                firsts = []
+                for ch, _ in find_nodes(a['body'], lambda y: y.get('k') == 'mcall' and y['method'] == 'chain'):
+                    m0 = re.match(r'^(?:std::)?iter::once\((?:Ok\()?(\w+)\)?\)$', src(ch['recv']))
+                    if m0:
+                        firsts.append(m0.group(1))
+                for mc, _ in find_nodes(a['body'], lambda y: y.get('k') == 'macro' and y['name'] == 'vec'):
+                    els = [src(x) for x in (mc.get('args') or [])]
+                    if els:
+                        firsts.append(els[0])
+                pushes = [c for c, _ in find_nodes(a['body'], lambda y: y.get('k') == 'mcall' and y['method'] == 'push')]
+                if not firsts and pushes:
+                    firsts.append(src(pushes[0]['args'][0]) if pushes[0]['args'] else '?')
+                # the receiver appended *after* other elements: chain(once(acc)) / a push(acc) that is not the first push
+                appended = [c for c, _ in find_nodes(a['body'], lambda y: y.get('k') == 'mcall' and y['method'] == 'chain' and y['args'] and re.search(r'iter::once\((?:Ok\()?%s\b' % re.escape(acc), src(y['args'][0])))]
+                appended += [c for c in pushes[1:] if c['args'] and src(c['args'][0]) == acc]
+                recv_first = bool(firsts) and all(f == acc for f in firsts) and not appended
                 reorder = find_nodes(a['body'], lambda y: y.get('k') == 'mcall' and y['method'] in ('rev', 'sort', 'sort_by', 'reverse', 'swap', 'rotate_left', 'rotate_right', 'insert'))
                 ok = recv_first and not reorder
                 r3.inst({'sugar': p.split('::')[1], 'receiver_first': recv_first, 'reordering_calls': len(reorder)}, ok=ok, kind=p)
